@@ -46,7 +46,7 @@ type SOpRec struct {
 	Msg    string `json:"msg,omitempty"`
 	Inc    int    `json:"inc"`
 	Step   int    `json:"step"`
-	Issued int    `json:"issued"` // step at which the request was sent
+	Issued int    `json:"issued"`           // step at which the request was sent
 	Faults int    `json:"faults,omitempty"` // faults injected while the request was in flight
 	Lost   bool   `json:"lost,omitempty"`   // the process died before answering
 }
@@ -62,6 +62,12 @@ type SRegRec struct {
 	Clock   int    `json:"clock"`
 }
 
+type SRejRec struct {
+	Task string `json:"task"`
+	Inc  int    `json:"inc"`
+	Step int    `json:"step"`
+}
+
 type SMTask struct {
 	ID      string `json:"id"`
 	Spec    *SSpec `json:"spec"`
@@ -72,32 +78,38 @@ type SMTask struct {
 }
 
 type SState struct {
-	Src      map[string][]byte                    `json:"src"`
-	MetaEtcd map[string][]byte                    `json:"meta_etcd,omitempty"`
-	MetaSQL  map[string]map[string]map[string]any `json:"meta_sql,omitempty"`
-	SDK      []*SDKState                          `json:"sdk"`
-	Logs     map[string][]*REntry                 `json:"logs"`
-	HistPos  int                                  `json:"hist_pos"`
-	OpPos    int                                  `json:"op_pos"`
-	Faults   map[string]int                       `json:"faults"`
-	Crashes  int                                  `json:"crashes"`
-	Steps    int                                  `json:"steps"`
-	OpLog    []SOpRec                             `json:"op_log"`
-	Regs     []SRegRec                            `json:"regs"`
-	Tasks    map[string]*SMTask                   `json:"tasks"`
-	Viol     []Violation                          `json:"viol,omitempty"`
-	Probes   map[string]int                       `json:"probes,omitempty"`
-	Stats    map[string]int                       `json:"stats,omitempty"`
-	Frozen   map[string]string                    `json:"frozen,omitempty"` // task/coll -> canonical positions once dropped
-	LogHits  []string                             `json:"log_hits,omitempty"`
-	Rewritten map[string]bool                     `json:"rewritten,omitempty"` // task records written again after their deletion
-	RewrittenPos map[string]bool                  `json:"rewritten_pos,omitempty"` // checkpoints written again after the deletion of their task
-	Ambiguous map[string]bool                     `json:"ambiguous,omitempty"` // tasks hit by a store write that was applied but reported as failed
-	InFlight int                                  `json:"in_flight"` // index of the operator request in flight at the crash, -1 none
-	Domain   map[string]int                       `json:"domain,omitempty"` // "task|target|collection|shard" -> index into the pchannel log where the replication domain of that stream starts
-	MsgCalls int                                  `json:"msg_calls"` // running number of drop-message store calls
-	Overlap  map[string]bool                      `json:"overlap,omitempty"` // tasks whose record was being updated by a background transition (failure pause) while an operator request on the same task was in flight
-	SimSecs  float64                              `json:"sim_secs"`
+	Src          map[string][]byte                    `json:"src"`
+	MetaEtcd     map[string][]byte                    `json:"meta_etcd,omitempty"`
+	MetaSQL      map[string]map[string]map[string]any `json:"meta_sql,omitempty"`
+	SDK          []*SDKState                          `json:"sdk"`
+	Logs         map[string][]*REntry                 `json:"logs"`
+	HistPos      int                                  `json:"hist_pos"`
+	OpPos        int                                  `json:"op_pos"`
+	Faults       map[string]int                       `json:"faults"`
+	Crashes      int                                  `json:"crashes"`
+	Steps        int                                  `json:"steps"`
+	OpLog        []SOpRec                             `json:"op_log"`
+	Regs         []SRegRec                            `json:"regs"`
+	Tasks        map[string]*SMTask                   `json:"tasks"`
+	Viol         []Violation                          `json:"viol,omitempty"`
+	Probes       map[string]int                       `json:"probes,omitempty"`
+	Stats        map[string]int                       `json:"stats,omitempty"`
+	Frozen       map[string]string                    `json:"frozen,omitempty"` // task/coll -> canonical positions once dropped
+	LogHits      []string                             `json:"log_hits,omitempty"`
+	Rewritten    map[string]bool                      `json:"rewritten,omitempty"`     // task records written again after their deletion
+	RewrittenPos map[string]bool                      `json:"rewritten_pos,omitempty"` // checkpoints written again after the deletion of their task
+	Ambiguous    map[string]bool                      `json:"ambiguous,omitempty"`     // tasks hit by a store write that was applied but reported as failed
+	InFlight     int                                  `json:"in_flight"`               // index of the operator request in flight at the crash, -1 none
+	Domain       map[string]int                       `json:"domain,omitempty"`        // "task|target|collection|shard" -> index into the pchannel log where the replication domain of that stream starts
+	PosRace      map[string]bool                      `json:"pos_race,omitempty"`      // "task/collection" -> two read-modify-write cycles on that checkpoint record overlapped
+	TimeSkipped  map[string][]int64                   `json:"time_skipped,omitempty"`  // domain key -> tags dropped by a resume through the re-stamped checkpoint time
+	Rejected     []SRejRec                            `json:"rejected,omitempty"`      // downstream write rejections attributed to a task
+	Down         map[int]bool                         `json:"down,omitempty"`          // downstreams that currently reject every write
+	BadPack      map[string]bool                      `json:"bad_pack,omitempty"`      // packs (by call key) the downstream refuses on every attempt
+	StaleAck     map[string]bool                      `json:"stale_ack,omitempty"`     // "target|collection|shard" -> a pack of an earlier registration was acknowledged after the stream had been registered again
+	MsgCalls     int                                  `json:"msg_calls"`               // running number of drop-message store calls
+	Overlap      map[string]bool                      `json:"overlap,omitempty"`       // tasks whose record was being updated by a background transition (failure pause) while an operator request on the same task was in flight
+	SimSecs      float64                              `json:"sim_secs"`
 }
 
 // ------------------------------------------------------------------ rig
@@ -122,35 +134,39 @@ type RigS struct {
 	metaE   *SimEtcd
 	metaQ   *SimSQL
 	fac     serverapi.MetaStoreFactory
+	obsFac  serverapi.MetaStoreFactory // same backend, separate handle: used by the oracles only
 	mq      *SimMQ
 	sdk     []*SimSDK
 	cdc     *server.MetaCDC
 	handler http.Handler
 
-	direct   bool // the scheduler itself is calling through a seam (observation): never park
-	reloaded bool
-	opBusy   bool
-	opDone   *SOpRec
-	opFaults int
-	opWrites int
-	mu       sync.Mutex
+	direct    bool // the scheduler itself is calling through a seam (observation): never park
+	reloaded  bool
+	opBusy    bool
+	opDone    *SOpRec
+	opFaults  int
+	opWrites  int
+	rmwOpen   map[string]int
+	rejCount  map[string]int
+	delivered map[string]int // "target|collection|shard" -> end message id of the last pack the CURRENT registration of that stream was given
+	mu        sync.Mutex
 
-	storeWrites int // counter of store writes released (to trigger checkpoint checks)
-	lastCkCheck int
-	regSeen     int
-	collByID    map[int64]*SColl
-	stdoutFile  string
-	nClients    int
-	pairTarget  map[int]int // dispatcher client pair -> target index (learned from the op-channel registration)
-	snapBefore  string
-	storeBefore string
-	haveBefore  bool
-	pendingOp   *SOpRec
-	lastStore   string
-	pauseSeen   map[string]bool
-	faultsAtStart int
+	storeWrites        int // counter of store writes released (to trigger checkpoint checks)
+	lastCkCheck        int
+	regSeen            int
+	collByID           map[int64]*SColl
+	stdoutFile         string
+	nClients           int
+	pairTarget         map[int]int // dispatcher client pair -> target index (learned from the op-channel registration)
+	snapBefore         string
+	storeBefore        string
+	haveBefore         bool
+	pendingOp          *SOpRec
+	lastStore          string
+	pauseSeen          map[string]bool
+	faultsAtStart      int
 	storeFaultsAtStart int
-	deletedAt map[string]int
+	deletedAt          map[string]int
 }
 
 func (r *RigS) gate(kind string) Gate {
@@ -323,6 +339,18 @@ func (r *RigS) loadState() {
 	if st.Domain == nil {
 		st.Domain = map[string]int{}
 	}
+	if st.PosRace == nil {
+		st.PosRace = map[string]bool{}
+	}
+	if st.TimeSkipped == nil {
+		st.TimeSkipped = map[string][]int64{}
+	}
+	st.Down = map[int]bool{} // a restart finds the downstream healthy again
+	if st.StaleAck == nil {
+		st.StaleAck = map[string]bool{}
+	}
+	r.delivered = map[string]int{}
+	st.BadPack = map[string]bool{}
 	if st.Overlap == nil {
 		st.Overlap = map[string]bool{}
 	}
@@ -361,13 +389,39 @@ func (r *RigS) build() {
 	for i, tgt := range sc.Targets {
 		_ = tgt
 		w := &SimSDK{State: st.SDK[i], Clock: step, Inc: r.plan.Incarnation, TgtPrefix: fmt.Sprintf("tgt%c-dml", 'a'+i)}
+		tgtIdx := i
 		w.Note = s.Side
+		w.OnReject = func(channel string, names []string) { r.onReject(tgtIdx, channel, names) }
+		w.OnAck = func(channel string) {
+			r.mu.Lock()
+			delete(r.rejCount, fmt.Sprintf("%d/%s", tgtIdx, channel))
+			r.mu.Unlock()
+		}
+		w.OnAckData = func(channel string, endSeq int, names []string) { r.onAckData(tgtIdx, channel, endSeq, names) }
 		pfx := fmt.Sprintf("t%c:", 'a'+i)
 		w.Gate = func(ctx context.Context, kind, key string) Outcome {
 			if r.direct {
 				return Outcome{}
 			}
-			return s.Park(ctx, kind, pfx+key, nil)
+			o := s.Park(ctx, kind, pfx+key, nil)
+			if kind == "dw" && o.CtxErr == nil {
+				// "downstream down": a rejected write stays rejected for the following writes of that downstream (so that the
+				// writer's retries are exhausted) until the operator resumes a task or the drain begins
+				r.mu.Lock()
+				if o.Fault == "dw_down" {
+					r.st.Down[tgtIdx] = true
+					o.Fault = "dw_err"
+				} else if o.Fault == "dw_pack" {
+					// this pack (and only this pack) is refused, however often it is retried
+					r.st.BadPack[pfx+key] = true
+					o.Fault = "dw_err"
+				} else if (r.st.Down[tgtIdx] || r.st.BadPack[pfx+key]) && !s.Draining && o.Fault == "" {
+					o.Fault = "dw_err"
+					s.Stat("fault:dw_err_repeated")
+				}
+				r.mu.Unlock()
+			}
+			return o
 		}
 		r.sdk = append(r.sdk, w)
 	}
@@ -380,6 +434,7 @@ func (r *RigS) build() {
 		cli := r.metaE.Client(ctx)
 		rs := coremeta.NewEtcdReplicateStoreWithClient(cli, sRoot)
 		r.fac = store.NewEtcdMetaStoreWithClient(cli, sRoot, rs)
+		r.obsFac = r.fac
 	} else {
 		r.metaQ = NewSimSQL("meta", r.gate("store"))
 		db := r.metaQ.Open()
@@ -392,6 +447,17 @@ func (r *RigS) build() {
 		if err != nil {
 			HarnessFail(r.plan, "mysql store: %v", err)
 		}
+		// a second handle (own connection pool) for the harness' observations: the service's pool may be exhausted by parked calls
+		db2 := r.metaQ.Open()
+		rs2, err := store.NewMySQLReplicateStoreWithDB(ctx, db2, sRoot)
+		if err != nil {
+			HarnessFail(r.plan, "mysql replicate store (observer): %v", err)
+		}
+		f2, err := store.NewMySQLMetaStoreWithDB(ctx, db2, sRoot, rs2)
+		if err != nil {
+			HarnessFail(r.plan, "mysql store (observer): %v", err)
+		}
+		r.obsFac = f2
 		r.direct = false
 		r.fac = f
 		if st.MetaSQL != nil {
@@ -572,6 +638,12 @@ func (r *RigS) startOp(idx int) {
 	if method == "" {
 		method = "POST"
 	}
+	if op.K == "resume" {
+		r.mu.Lock()
+		r.st.Down = map[int]bool{}
+		r.st.BadPack = map[string]bool{}
+		r.mu.Unlock()
+	}
 	r.s.Side("operator request %d %s %s", idx, op.K, op.Task)
 	issued := r.s.Step
 	go func() {
@@ -662,6 +734,125 @@ func (r *RigS) noteStoreWrite(key string) {
 	}
 }
 
+// notePositionRMW watches the read-modify-write cycles on checkpoint records: two cycles on one record that overlap
+// (read, read, write, write) lose the first write.
+func (r *RigS) notePositionRMW(key string) {
+	i := strings.LastIndex(key, "task_position")
+	if i < 0 {
+		return
+	}
+	isGet := strings.Contains(key, ":get:") || strings.Contains(key, "query:")
+	isPut := strings.Contains(key, ":put:") || strings.Contains(key, "exec:INSERT INTO task_position:")
+	rest := key[i+len("task_position"):]
+	rest = strings.TrimLeft(rest, ":/")
+	if j := strings.IndexAny(rest, "#, "); j >= 0 {
+		rest = rest[:j]
+	}
+	f := strings.Split(strings.Trim(rest, "/"), "/")
+	if len(f) != 2 {
+		return // not a single (task, collection) record
+	}
+	k := f[0] + "/" + f[1]
+	if r.rmwOpen == nil {
+		r.rmwOpen = map[string]int{}
+	}
+	switch {
+	case isGet:
+		r.rmwOpen[k]++
+	case isPut:
+		if r.rmwOpen[k] >= 2 {
+			r.st.PosRace[k] = true
+			r.s.Probe("concurrent_checkpoint_updates")
+		}
+		if r.rmwOpen[k] > 0 {
+			r.rmwOpen[k]--
+		}
+	}
+}
+
+// onReject: a downstream write was rejected (injected). The packs of one call belong to one task; it is found through
+// the collections the rejected messages belong to.
+func (r *RigS) onReject(tgt int, channel string, names []string) {
+	// only a rejection that outlasts the writer's retries is a failure of the write
+	r.mu.Lock()
+	if r.rejCount == nil {
+		r.rejCount = map[string]int{}
+	}
+	k := fmt.Sprintf("%d/%s", tgt, channel)
+	r.rejCount[k]++
+	n := r.rejCount[k]
+	r.mu.Unlock()
+	if n != r.sc.Knobs.RetryTimes {
+		return
+	}
+	seen := map[string]bool{}
+	for _, n := range names {
+		for _, c := range r.sc.Colls {
+			if c.Name != n {
+				continue
+			}
+			if owner := r.ownerOf(tgt, c.ID); owner != "" && !seen[owner] {
+				seen[owner] = true
+				r.st.Rejected = append(r.st.Rejected, SRejRec{Task: owner, Inc: r.plan.Incarnation, Step: r.s.Step})
+				r.s.Side("rejected write on %s carried data of task %s", channel, owner)
+			}
+		}
+	}
+}
+
+// onAckData: the downstream acknowledged a pack with data. If the current registration of the stream it belongs to has not
+// been given a pack with that end message id yet, the pack stems from an earlier registration (it waited in a queue of the
+// shared replication entity across a pause / resume of its task).
+func (r *RigS) onAckData(tgt int, channel string, endSeq int, names []string) {
+	shard := -1
+	if i := strings.LastIndex(channel, "_"); i >= 0 {
+		fmt.Sscanf(channel[i+1:], "%d", &shard)
+	}
+	for _, n := range names {
+		for _, c := range r.sc.Colls {
+			if c.Name != n || shard < 0 {
+				continue
+			}
+			k := fmt.Sprintf("%d|%d|%d", tgt, c.ID, shard)
+			// the registration that handed this pack out last: if it has been closed meanwhile, the pack outlived it
+			all := r.mq.All
+			for i := len(all) - 1; i >= 0; i-- {
+				st := all[i]
+				if st.Coll != c.ID || st.Shard != shard || st.PCh == replicateChan || r.targetOfStream(st) != tgt {
+					continue
+				}
+				gave, gaveStep := false, 0
+				for _, dp := range st.Delivered {
+					if dp.EndSeq == endSeq {
+						gave, gaveStep = true, dp.Step
+					}
+				}
+				if !gave {
+					continue
+				}
+				// ... and its task was resumed in between (a write that merely follows a pause is not this case)
+				resumed := false
+				owner := r.ownerOf(tgt, c.ID)
+				for _, rec := range r.st.OpLog {
+					if rec.K == "resume" && rec.Task == owner && rec.Inc == r.plan.Incarnation && rec.Issued >= gaveStep {
+						resumed = true
+					}
+				}
+				if r.opBusy && r.st.InFlight >= 0 && r.sc.Ops[r.st.InFlight].K == "resume" && r.sc.Ops[r.st.InFlight].Task == owner {
+					resumed = true
+				}
+				if st.Closed && resumed {
+					r.mu.Lock()
+					r.st.StaleAck[k] = true
+					r.mu.Unlock()
+					r.s.Probe("stale_pack_acknowledged_after_stop")
+				}
+				break
+			}
+		}
+	}
+}
+
 func (r *RigS) isReloaded() bool { r.mu.Lock(); defer r.mu.Unlock(); return r.reloaded }
 
 func b2s(m map[string][]byte) map[string]string {
@@ -699,7 +890,7 @@ func (r *RigS) faultsFor(c *Call) []string {
 		}
 		return []string{"store_err_before", "store_err_after"}
 	case "dw":
-		return []string{"dw_err"}
+		return []string{"dw_err", "dw_down", "dw_pack"}
 	case "ddl":
 		return []string{"ddl_reject_before"}
 	case "tq":
@@ -763,6 +954,9 @@ func (r *RigS) run() {
 		if c.Kind == "store" && o.Fault == "" {
 			r.noteStoreWrite(c.Key)
 		}
+		if c.Kind == "store" && o.Fault != "store_err_before" {
+			r.notePositionRMW(c.Key)
+		}
 		if o.Fault == "store_err_after" {
 			for _, f := range strings.FieldsFunc(c.Key, func(x rune) bool { return x == '/' || x == ',' || x == ':' || x == ' ' }) {
 				if strings.HasPrefix(f, "tk") || strings.HasPrefix(f, "raw") {
@@ -824,6 +1018,13 @@ func (r *RigS) run() {
 					dp := stt.Deliver()
 					if dp != nil {
 						s.Side("mq delivered pack to %s end=%d msgs=%d", stt.VCh, dp.EndSeq, len(dp.Entries))
+						if stt.PCh != replicateChan {
+							if tgt := r.targetOfStream(stt); tgt >= 0 {
+								r.mu.Lock()
+								r.delivered[fmt.Sprintf("%d|%d|%d", tgt, stt.Coll, stt.Shard)] = dp.EndSeq
+								r.mu.Unlock()
+							}
+						}
 					}
 				}})
 			}
@@ -976,7 +1177,7 @@ func (r *RigS) storeTasks() (map[string]*meta.TaskInfo, error) {
 	r.obs(func() {
 		ctx := context.Background()
 		var infos []*meta.TaskInfo
-		infos, err = r.fac.GetTaskInfoMetaStore(ctx).Get(ctx, &meta.TaskInfo{}, nil)
+		infos, err = r.obsFac.GetTaskInfoMetaStore(ctx).Get(ctx, &meta.TaskInfo{}, nil)
 		out = map[string]*meta.TaskInfo{}
 		for _, i := range infos {
 			out[i.TaskID] = i
@@ -990,7 +1191,7 @@ func (r *RigS) storePositions() ([]*meta.TaskCollectionPosition, error) {
 	var err error
 	r.obs(func() {
 		ctx := context.Background()
-		out, err = r.fac.GetTaskCollectionPositionMetaStore(ctx).Get(ctx, &meta.TaskCollectionPosition{}, nil)
+		out, err = r.obsFac.GetTaskCollectionPositionMetaStore(ctx).Get(ctx, &meta.TaskCollectionPosition{}, nil)
 	})
 	sort.Slice(out, func(i, j int) bool {
 		if out[i].TaskID != out[j].TaskID {
